@@ -49,6 +49,286 @@ Proof. unfold cross_row. rewrite find_cell_app.
   - cbn [find_cell is_main option_map]. rewrite map_length. f_equal. lia.
   - apply find_cell_none. rewrite forallb_forall. intros c Hc. apply in_map_iff in Hc. destruct Hc as [_ [<- _]]. reflexivity. Qed.
 
+(* ================================================================== the unbounded round trip *)
+Lemma forallb_map_true {A} (P : cell -> bool) (f : A -> cell) l : (forall x, P (f x) = true) -> forallb P (map f l) = true.
+Proof. intros H. induction l as [|x l IH]; cbn [map forallb]; [reflexivity|]. rewrite H, IH. reflexivity. Qed.
+
+Lemma find_plane_app f a b : (forall r, In r a -> find_cell f r = None) ->
+  find_plane f (a ++ b) = option_map (fun xy => (fst xy, length a + snd xy)) (find_plane f b).
+Proof. induction a as [|r a IH]; intros H; cbn [app find_plane length].
+  - destruct (find_plane f b) as [[x y]|]; reflexivity.
+  - rewrite (H r (or_introl eq_refl)), IH by (intros r' Hr'; apply H; right; exact Hr').
+    destruct (find_plane f b) as [[x y]|]; reflexivity. Qed.
+
+Lemma find_plane_none f p : (forall r, In r p -> find_cell f r = None) -> find_plane f p = None.
+Proof. induction p as [|r p IH]; intros H; cbn [find_plane]; [reflexivity|].
+  rewrite (H r (or_introl eq_refl)), IH by (intros r' Hr'; apply H; right; exact Hr'). reflexivity. Qed.
+
+Lemma nth_map_seq {A} (f : nat -> A) d n : forall s k, k < n -> nth k (map f (seq s n)) d = f (s + k).
+Proof. induction n as [|n IH]; intros s k Hk; [lia|]. cbn [seq map]. destruct k as [|k]; cbn [nth]; [f_equal; lia|].
+  rewrite IH by lia. f_equal. lia. Qed.
+
+Lemma map_snd_combine {A B} : forall (a : list A) (b : list B), length a = length b -> map snd (combine a b) = b.
+Proof. induction a as [|x a IH]; intros [|y b] Hl; cbn in *; try discriminate; [reflexivity|]. rewrite IH by lia. reflexivity. Qed.
+
+Lemma map_snd_indexed {A} (l : list A) : map snd (indexed l) = l.
+Proof. unfold indexed. apply map_snd_combine. rewrite map_length, seq_length. reflexivity. Qed.
+
+Lemma indexed_length {A} (l : list A) : length (indexed l) = length l.
+Proof. unfold indexed. rewrite combine_length, map_length, seq_length. lia. Qed.
+
+Lemma map_indexed {A B} (g : A -> B) (l : list A) : map (fun x => g (snd x)) (indexed l) = map g l.
+Proof. rewrite <- (map_map snd g), map_snd_indexed. reflexivity. Qed.
+
+Lemma all_texts_map {A} (g : A -> list cell) (h : A -> list N) l :
+  (forall x, In x l -> texts (g x) = Some (h x)) -> all_texts (map g l) = Some (map h l).
+Proof. induction l as [|x l IH]; intros H; cbn [map all_texts]; [reflexivity|].
+  rewrite (H x (or_introl eq_refl)), IH by (intros y Hy; apply H; right; exact Hy). reflexivity. Qed.
+
+Lemma all2_refl l : all2 rid_eqb l l = true.
+Proof. induction l as [|[a b] l IH]; cbn [all2]; [reflexivity|]. unfold rid_eqb at 1. cbn [fst snd]. rewrite !N.eqb_refl, IH. reflexivity. Qed.
+
+Lemma all2_tags_differ {A} (f : A -> N) l : all2 (fun x y => negb (rid_eqb x y)) (map (fun x => (1%N, f x)) l) (map (fun x => (2%N, f x)) l) = true.
+Proof. induction l as [|x l IH]; cbn [map all2]; [reflexivity|]. rewrite IH. reflexivity. Qed.
+
+Lemma all2_tags_not_equal {A} (f : A -> N) x l : all2 rid_eqb (map (fun x => (1%N, f x)) (x :: l)) (map (fun x => (2%N, f x)) (x :: l)) = false.
+Proof. reflexivity. Qed.
+
+Lemma cols_block3 (a : list cell) x b y c :
+  cols (S (length a + 1 + length b)) (length a + 1 + length b + 1 + length c) (a ++ x :: b ++ y :: c) = c.
+Proof. replace (a ++ x :: b ++ y :: c) with ((a ++ x :: b) ++ y :: c) by (rewrite <- app_assoc; reflexivity).
+  replace (length a + 1 + length b) with (length (a ++ x :: b)) by (rewrite app_length; cbn [length]; lia).
+  replace (length (a ++ x :: b) + 1 + length c) with (length ((a ++ x :: b) ++ y :: c)) by (rewrite !app_length; cbn [length]; lia).
+  apply cols_block2_end. Qed.
+
+Section Roundtrip.
+Variable t : table.
+Hypothesis Hwf : wf t = true.
+Local Notation n_in := (length (t_inputs t)).
+Local Notation n_out := (length (t_outputs t)).
+Local Notation n_ann := (length (t_annotations t)).
+Local Notation HH := (hdr t).
+
+Lemma wf_parts19 : 0 < n_in /\ 0 < n_out /\
+  forall r, In r (t_rules t) -> length (r_in r) = n_in /\ length (r_out r) = n_out /\ length (r_ann r) = n_ann.
+Proof. pose proof Hwf as Hw. unfold wf in Hw. apply andb_true_iff in Hw. destruct Hw as [H1 H3]. apply andb_true_iff in H1. destruct H1 as [H1 H2].
+  apply Nat.ltb_lt in H1, H2. split; [exact H1|]. split; [exact H2|]. intros r Hr. rewrite forallb_forall in H3. specialize (H3 r Hr).
+  apply andb_true_iff in H3; destruct H3 as [H3 H5]; apply andb_true_iff in H3; destruct H3 as [H3 H4];
+  apply Nat.eqb_eq in H3, H4, H5. tauto. Qed.
+
+(* total width of a row *)
+Definition W : nat := n_in + 1 + n_out + match t_annotations t with [] => 0 | _ => 1 + n_ann end.
+Definition oright : nat := match t_annotations t with [] => W | _ => n_in + 1 + n_out end.
+
+(* every row of the layout: three blocks *)
+Definition shaped (row a b c : list cell) (s1 s2 : cell) : Prop :=
+  row = a ++ s1 :: b ++ sep_ann t s2 c /\ length a = n_in /\ length b = n_out /\ length c = n_ann.
+
+Lemma q_in row a b c s1 s2 : shaped row a b c s1 s2 -> cols 0 n_in row = a.
+Proof. intros [-> [<- _]]. apply cols_block. Qed.
+
+Lemma q_out row a b c s1 s2 : shaped row a b c s1 s2 -> cols (S n_in) oright row = b.
+Proof. intros [-> [Ha [Hb Hc]]]. unfold oright, W, sep_ann. destruct (t_annotations t) as [|an ans].
+  - rewrite app_nil_r. replace (n_in + 1 + n_out + 0) with (length (a ++ s1 :: b)) by (rewrite app_length; cbn [length]; lia).
+    rewrite <- Ha. apply cols_block2_end.
+  - replace (n_in + 1 + n_out) with (S (length a) + length b) by lia. rewrite <- Ha. apply cols_block2. Qed.
+
+Lemma q_ann row a b c s1 s2 : t_annotations t <> [] -> shaped row a b c s1 s2 -> cols (S (n_in + 1 + n_out)) W row = c.
+Proof. intros Hne [-> [Ha [Hb Hc]]]. unfold W, sep_ann. destruct (t_annotations t) as [|an ans]; [congruence|].
+  rewrite <- Ha, <- Hb, <- Hc. replace (length a + 1 + length b + (1 + length c)) with (length a + 1 + length b + 1 + length c) by lia.
+  apply cols_block3. Qed.
+
+Lemma h_ins_length k : length (h_ins t k) = n_in.
+Proof. unfold h_ins. rewrite map_length, indexed_length. reflexivity. Qed.
+Lemma h_outs_length k : length (h_outs t k) = n_out.
+Proof. unfold h_outs. destruct (multi t); [destruct (label_row t && Nat.eqb k 0); [|destruct (Nat.ltb k (top_rows t))]|];
+  rewrite map_length; try rewrite indexed_length; reflexivity. Qed.
+Lemma h_anns_length : length (h_anns t) = n_ann.
+Proof. unfold h_anns. rewrite map_length, indexed_length. reflexivity. Qed.
+
+Lemma header_shaped k : shaped (header_row t k) (h_ins t k) (h_outs t k) (h_anns t) VOut VAnn.
+Proof. split; [reflexivity|]. split; [apply h_ins_length|]. split; [apply h_outs_length|apply h_anns_length]. Qed.
+
+Lemma rule_shaped ir : In (snd ir) (t_rules t) ->
+  shaped (rule_row t ir) (map (fun x => Region (7%N, fst ir) x) (r_in (snd ir))) (map (fun x => Region (8%N, fst ir) x) (r_out (snd ir)))
+         (map (fun x => Region (9%N, fst ir) x) (r_ann (snd ir))) VOut VAnn.
+Proof. intros Hr. destruct wf_parts19 as [_ [_ Hl]]. destruct (Hl _ Hr) as [A [B C]].
+  split; [reflexivity|]. rewrite !map_length. tauto. Qed.
+
+Lemma in_indexed {A} (l : list A) x : In x (indexed l) -> In (snd x) l.
+Proof. intros Hx. rewrite <- (map_snd_indexed l). apply in_map. exact Hx. Qed.
+
+(* ---- no crossing cells outside the crossing line ---- *)
+Definition plain (c : cell) : bool := match c with Main | HCross => false | _ => true end.
+
+Lemma header_plain k : forallb plain (header_row t k) = true.
+Proof. unfold header_row, h_ins, h_outs, h_anns, sep_ann. rewrite forallb_app. cbn [forallb plain]. rewrite forallb_app.
+  rewrite forallb_map_true by (intros x; destruct (Nat.ltb k (top_rows t)); reflexivity).
+  assert (E : forallb plain (match t_annotations t with [] => [] | _ :: _ => VAnn :: map (fun a => Region (6%N, fst a) (snd a)) (indexed (t_annotations t)) end) = true).
+  { destruct (t_annotations t); [reflexivity|]. cbn [forallb plain]. apply forallb_map_true. reflexivity. }
+  rewrite E. destruct (multi t); [destruct (label_row t && Nat.eqb k 0); [|destruct (Nat.ltb k (top_rows t))]|];
+    rewrite forallb_map_true; try reflexivity. intros x. destruct (Nat.ltb k (top_rows t)); reflexivity. Qed.
+
+Lemma rule_plain ir : forallb plain (rule_row t ir) = true.
+Proof. unfold rule_row, sep_ann. rewrite forallb_app. cbn [forallb plain]. rewrite forallb_app.
+  rewrite !forallb_map_true by reflexivity. destruct (t_annotations t); [reflexivity|]. cbn [forallb plain]. rewrite forallb_map_true; reflexivity. Qed.
+
+Lemma plain_no f row : (forall c, plain c = true -> f c = false) -> forallb plain row = true -> find_cell f row = None.
+Proof. intros Hf Hp. apply find_cell_none. rewrite forallb_forall in *. intros c Hc. rewrite (Hf c (Hp c Hc)). reflexivity. Qed.
+
+Lemma plain_main c : plain c = true -> is_main c = false. Proof. destruct c; cbn; congruence. Qed.
+Lemma plain_hcross c : plain c = true -> is_hcross c = false. Proof. destruct c; cbn; congruence. Qed.
+
+Lemma headers_length : length (map (header_row t) (seq 0 HH)) = HH.
+Proof. rewrite map_length, seq_length. reflexivity. Qed.
+
+Lemma main_position : find_plane is_main (layout_h t) = Some (n_in, HH).
+Proof. unfold layout_h. rewrite find_plane_app.
+  - cbn [find_plane]. rewrite main_crossing_column. cbn [option_map fst snd]. rewrite headers_length. f_equal. f_equal. lia.
+  - intros r Hr. apply in_map_iff in Hr. destruct Hr as [k [<- _]]. apply (plain_no is_main _ plain_main (header_plain k)). Qed.
+
+Lemma hcross_cross_row : find_cell is_hcross (cross_row t) = match t_annotations t with [] => None | _ => Some (n_in + 1 + n_out) end.
+Proof. unfold cross_row, sep_ann. rewrite find_cell_app.
+  2:{ apply find_cell_none. apply forallb_map_true. reflexivity. }
+  cbn [find_cell is_hcross]. rewrite find_cell_app.
+  2:{ apply find_cell_none. apply forallb_map_true. reflexivity. }
+  rewrite !map_length. destruct (t_annotations t); cbn [find_cell is_hcross option_map]; [reflexivity|]. f_equal. lia. Qed.
+
+Lemma hcross_position : find_plane is_hcross (layout_h t) = match t_annotations t with [] => None | _ => Some (n_in + 1 + n_out, HH) end.
+Proof. unfold layout_h. rewrite find_plane_app.
+  - cbn [find_plane]. rewrite hcross_cross_row. destruct (t_annotations t) eqn:E.
+    + rewrite find_plane_none; [reflexivity|]. intros r Hr. apply in_map_iff in Hr. destruct Hr as [ir [<- _]].
+      apply (plain_no is_hcross _ plain_hcross (rule_plain ir)).
+    + cbn [option_map fst snd]. rewrite headers_length. f_equal. f_equal. lia.
+  - intros r Hr. apply in_map_iff in Hr. destruct Hr as [k [<- _]]. apply (plain_no is_hcross _ plain_hcross (header_plain k)). Qed.
+
+Lemma row_at_header k : k < HH -> row_at (layout_h t) k = header_row t k.
+Proof. intros Hk. unfold row_at, layout_h. rewrite app_nth1 by (rewrite headers_length; exact Hk).
+  rewrite nth_map_seq by exact Hk. reflexivity. Qed.
+
+Lemma H_pos : 0 < HH. Proof. unfold hdr. lia. Qed.
+
+Lemma width_layout : width (layout_h t) = W.
+Proof. unfold layout_h. pose proof H_pos as HP. destruct HH as [|h] eqn:EH; [lia|]. cbn [seq map app width].
+  destruct (header_shaped 0) as [-> [A [B C]]]. rewrite app_length. cbn [length]. rewrite app_length. unfold W, sep_ann.
+  destruct (t_annotations t); cbn [length] in *; lia. Qed.
+
+Lemma length_layout : length (layout_h t) = S HH + length (t_rules t).
+Proof. unfold layout_h. rewrite app_length, headers_length. cbn [length]. rewrite map_length, indexed_length. lia. Qed.
+
+Lemma skipn_app_exact {A} (a b : list A) : skipn (length a) (a ++ b) = b.
+Proof. rewrite skipn_app, skipn_all, Nat.sub_diag. reflexivity. Qed.
+
+Lemma body_rows : rows (S HH) (length (layout_h t)) (layout_h t) = map (rule_row t) (indexed (t_rules t)).
+Proof. unfold rows. rewrite length_layout. unfold layout_h.
+  replace (map (header_row t) (seq 0 HH) ++ cross_row t :: map (rule_row t) (indexed (t_rules t)))
+    with ((map (header_row t) (seq 0 HH) ++ [cross_row t]) ++ map (rule_row t) (indexed (t_rules t))) by (rewrite <- app_assoc; reflexivity).
+  assert (L : length (map (header_row t) (seq 0 HH) ++ [cross_row t]) = S HH) by (rewrite app_length, headers_length; cbn [length]; lia).
+  rewrite <- L at 3. rewrite skipn_app_exact. apply firstn_all2. rewrite map_length, indexed_length. lia. Qed.
+
+Lemma body_block (sel : rule -> list N) (tag : N) (l r : nat) :
+  (forall ir, In (snd ir) (t_rules t) -> cols l r (rule_row t ir) = map (fun x => Region (tag, fst ir) x) (sel (snd ir))) ->
+  all_texts (map (cols l r) (map (rule_row t) (indexed (t_rules t)))) = Some (map sel (t_rules t)).
+Proof. intros Hq. rewrite map_map. rewrite (all_texts_map _ (fun ir => sel (snd ir))).
+  - rewrite map_indexed. reflexivity.
+  - intros ir Hir. rewrite (Hq ir (in_indexed _ _ Hir)). rewrite (texts_regions (fun _ => (tag, fst ir)) (fun x => x)). rewrite map_id. reflexivity. Qed.
+(* ---- the header lines ---- *)
+Lemma hdr_cases :
+  (label_row t = false /\ t_values t = false /\ hdr t = 1 /\ top_rows t = 1) \/
+  (label_row t = false /\ t_values t = true /\ hdr t = 2 /\ top_rows t = 1) \/
+  (label_row t = true /\ t_values t = false /\ hdr t = 2 /\ top_rows t = 2) \/
+  (label_row t = true /\ t_values t = true /\ hdr t = 3 /\ top_rows t = 2).
+Proof. unfold top_rows, hdr. destruct (label_row t), (t_values t); cbn; tauto. Qed.
+
+Lemma h_ins_top k : k < top_rows t -> h_ins t k = map (fun ie => Region (1%N, fst ie) (fst (snd ie))) (indexed (t_inputs t)).
+Proof. intros Hk. unfold h_ins. apply map_ext. intros ie. destruct (Nat.ltb_spec k (top_rows t)); [reflexivity|lia]. Qed.
+Lemma h_ins_bot k : top_rows t <= k -> h_ins t k = map (fun ie => Region (2%N, fst ie) (snd (snd ie))) (indexed (t_inputs t)).
+Proof. intros Hk. unfold h_ins. apply map_ext. intros ie. destruct (Nat.ltb_spec k (top_rows t)); [lia|reflexivity]. Qed.
+
+Lemma irow k : k < HH -> cols 0 n_in (row_at (layout_h t) k) = h_ins t k.
+Proof. intros Hk. rewrite (row_at_header k Hk). apply (q_in _ _ _ _ _ _ (header_shaped k)). Qed.
+Lemma orow k : k < HH -> cols (S n_in) oright (row_at (layout_h t) k) = h_outs t k.
+Proof. intros Hk. rewrite (row_at_header k Hk). apply (q_out _ _ _ _ _ _ (header_shaped k)). Qed.
+
+Lemma inputs_nonempty : exists x l, indexed (t_inputs t) = x :: l.
+Proof. destruct wf_parts19 as [Hi _]. pose proof (indexed_length (t_inputs t)) as L.
+  destruct (indexed (t_inputs t)) as [|x l]; [cbn in L; lia|]. exists x, l. reflexivity. Qed.
+
+Lemma ivp_eq : input_values_present (layout_h t) n_in HH = Some (t_values t).
+Proof. unfold input_values_present. destruct inputs_nonempty as [x [l Ex]].
+  destruct hdr_cases as [[Hl [Hv [Hh Ht]]]|[[Hl [Hv [Hh Ht]]]|[[Hl [Hv [Hh Ht]]]|[Hl [Hv [Hh Ht]]]]]]; rewrite Hh, Hv.
+  - reflexivity.
+  - rewrite !irow by (lia). rewrite (h_ins_top 0), (h_ins_bot 1) by lia.
+    rewrite (ids_regions (fun ie => (1%N, fst ie)) (fun ie => fst (snd ie))), (ids_regions (fun ie => (2%N, fst ie)) (fun ie => snd (snd ie))).
+    rewrite Ex. reflexivity.
+  - rewrite !irow by (lia). rewrite (h_ins_top 0), (h_ins_top 1) by lia.
+    rewrite (ids_regions (fun ie => (1%N, fst ie)) (fun ie => fst (snd ie))). rewrite all2_refl. reflexivity.
+  - rewrite !irow by (lia). rewrite (h_ins_top 1), (h_ins_bot 2) by lia.
+    rewrite (ids_regions (fun ie => (1%N, fst ie)) (fun ie => fst (snd ie))), (ids_regions (fun ie => (2%N, fst ie)) (fun ie => snd (snd ie))).
+    rewrite (all2_tags_differ (fun ie : N * (N * N) => fst ie)). reflexivity. Qed.
+
+Lemma top_rows_pos : 0 < top_rows t.
+Proof. destruct hdr_cases as [[_ [_ [_ Ht]]]|[[_ [_ [_ Ht]]]|[[_ [_ [_ Ht]]]|[_ [_ [_ Ht]]]]]]; lia. Qed.
+
+Lemma piece_inputs : texts (cols 0 n_in (row_at (layout_h t) 0)) = Some (f_inputs (fields_of t)).
+Proof. rewrite irow by apply H_pos. rewrite (h_ins_top 0 top_rows_pos).
+  rewrite (texts_regions (fun ie => (1%N, fst ie)) (fun ie : N * (N * N) => fst (snd ie))). rewrite (map_indexed fst). reflexivity. Qed.
+
+Lemma piece_input_values :
+  (if t_values t then texts (cols 0 n_in (row_at (layout_h t) (HH - 1))) else Some []) = Some (f_input_values (fields_of t)).
+Proof. cbn [fields_of f_input_values].
+  destruct hdr_cases as [[Hl [Hv [Hh Ht]]]|[[Hl [Hv [Hh Ht]]]|[[Hl [Hv [Hh Ht]]]|[Hl [Hv [Hh Ht]]]]]]; rewrite Hv; try reflexivity;
+  (rewrite irow by (lia); rewrite h_ins_bot by (lia);
+   rewrite (texts_regions (fun ie => (2%N, fst ie)) (fun ie : N * (N * N) => snd (snd ie))); rewrite (map_indexed snd); reflexivity). Qed.
+
+Lemma piece_input_entries :
+  all_texts (map (cols 0 n_in) (map (rule_row t) (indexed (t_rules t)))) = Some (f_input_entries (fields_of t)).
+Proof. apply (body_block r_in 7%N). intros ir Hr. apply (q_in _ _ _ _ _ _ (rule_shaped ir Hr)). Qed.
+
+Lemma piece_output_entries :
+  all_texts (map (cols (S n_in) oright) (map (rule_row t) (indexed (t_rules t)))) = Some (f_output_entries (fields_of t)).
+Proof. apply (body_block r_out 8%N). intros ir Hr. apply (q_out _ _ _ _ _ _ (rule_shaped ir Hr)). Qed.
+
+Lemma ow_eq : oright - S n_in = n_out.
+Proof. unfold oright, W. destruct (t_annotations t); lia. Qed.
+
+Lemma piece_outputs :
+  out_clause (t_values t) HH (oright - S n_in) (fun y => cols (S n_in) oright (row_at (layout_h t) y)) =
+  Some (f_label (fields_of t), f_components (fields_of t), f_output_values (fields_of t)).
+Proof. rewrite ow_eq. cbn [fields_of f_label f_components f_output_values]. unfold out_clause.
+  destruct wf_parts19 as [_ [Ho _]]. 
+  destruct hdr_cases as [[Hl [Hv [Hh Ht]]]|[[Hl [Hv [Hh Ht]]]|[[Hl [Hv [Hh Ht]]]|[Hl [Hv [Hh Ht]]]]]]; rewrite Hh, Hv;
+  rewrite ?orow by (lia); unfold h_outs; rewrite Hl, Ht;
+  unfold label_row in Hl; unfold multi in Hl |- *;
+  destruct (t_outputs t) as [|o1 [|o2 os]] eqn:Eo; cbn [length] in Ho, Hl |- *; try lia; cbn [Nat.ltb Nat.leb andb Nat.eqb] in Hl |- *.
+  all: cbn [andb] in Hl; try discriminate Hl.
+  all: rewrite ?(texts_regions (fun _ => (3%N, 0%N)) (fun _ : N * N => lbl_text t)),
+               ?(texts_regions (fun on => (4%N, fst on)) (fun on : N * (N * N) => fst (snd on))), ?(map_indexed fst),
+               ?(texts_regions (fun on => (5%N, fst on)) (fun on : N * (N * N) => snd (snd on))), ?(map_indexed snd).
+  all: unfold lbl_text in *; destruct (t_label t); try discriminate Hl; reflexivity. Qed.
+
+Lemma oright_eq :
+  match find_plane is_hcross (layout_h t) with Some (qx, _) => qx | None => width (layout_h t) end = oright.
+Proof. rewrite hcross_position, width_layout. unfold oright. destruct (t_annotations t); reflexivity. Qed.
+
+Lemma piece_annotations :
+  ann_clause (layout_h t) (find_plane is_hcross (layout_h t)) = Some (f_annotations (fields_of t), f_annotation_entries (fields_of t)).
+Proof. rewrite hcross_position. cbn [fields_of f_annotations f_annotation_entries]. unfold ann_clause.
+  destruct (t_annotations t) as [|a0 al] eqn:Ea; [reflexivity|].
+  assert (Hne : t_annotations t <> []) by (rewrite Ea; discriminate).
+  rewrite width_layout, body_rows. rewrite (row_at_header 0 H_pos).
+  rewrite (q_ann _ _ _ _ _ _ Hne (header_shaped 0)). unfold h_anns.
+  rewrite (texts_regions (fun a => (6%N, fst a)) (fun a : N * N => snd a)), map_snd_indexed.
+  rewrite (body_block r_ann 9%N).
+  - rewrite Ea. reflexivity.
+  - intros ir Hr. apply (q_ann _ _ _ _ _ _ Hne (rule_shaped ir Hr)). Qed.
+
+Theorem roundtrip_h : recognize_horizontal (layout_h t) = Some (fields_of t).
+Proof. unfold recognize_horizontal. rewrite main_position, ivp_eq. cbv zeta. rewrite oright_eq, body_rows.
+  rewrite piece_inputs, piece_input_values, piece_input_entries, piece_outputs, piece_output_entries, piece_annotations.
+  destruct (fields_of t); reflexivity. Qed.
+End Roundtrip.
+
 (* ---------------- the bounded sweep ---------------- *)
 Definition texts_from (base : N) (n : nat) : list N := map (fun k => (base + N.of_nat k)%N) (seq 0 n).
 
